@@ -14,6 +14,16 @@
  *   tl <4|6> <addr> <len>      -> "tl addr=<hex>"                     net_addr_truncate_preflen
  *   tm <4|6> <addr> <mask>     -> "tm addr=<hex>"                     net_addr_truncate_mask
  *   in <4|6> <net> <mask> <addr> -> "in v=<0|1>"                      is_addr_in_net
+ *   lay                        -> "lay ss=<sizeof storage> af4=<hex of the family field> fam4=<off>,<size> port4= addr4=
+ *                                  size4= af6= fam6= port6= flow6= addr6= scope6= size6="   (layout of the images below)
+ *   ss <tl|ps|as|si|cp> <4|6> <addr> <port> <flow:4 bytes> <scope:4 bytes> <pad> [<arg>]
+ *        the WHOLE sockaddr_storage: the storage is filled with the pattern <pad> (0 = zero bytes, else non-zero
+ *        bytes (pad + 31*i) | 1), then family / port / flowinfo / address / scope id are stored (AF_INET has no
+ *        flowinfo / scope id: pattern bytes stay there) and the image is taken before and after the call:
+ *          tl <len>   net_addr_truncate_preflen      ps <port>  sa_port_set        as <addr>  sa_addr_set
+ *          si         sa_init(storage holding only the pattern, family, addr, port)
+ *          cp <dpad>  sa_copy(the address, a storage holding only the pattern <dpad>)
+ *        -> "ss rc=<rc|0> pre=<image before> post=<image after> src=<image of the source (cp) | ->"
  * With -DDRV_GUARD the output / text blocks end flush against a PROT_NONE page (non-ASan builds). */
 #include <sys/param.h>
 #include <sys/types.h>
@@ -22,12 +32,13 @@
 #include <netinet/in.h>
 #include <arpa/inet.h>
 #include <inttypes.h>
+#include <stddef.h>
 #include <errno.h>
 #include "vh_util.h"
 #include "net/socket_address.h"
 #include "net/utils.h"
 
-#define MAXF 6
+#define MAXF 12
 static char *fld[MAXF];
 
 static int split(char *line) {
@@ -96,16 +107,98 @@ static void put_ss(const char *op, int rc, const struct sockaddr_storage *ss, lo
 	printf(" len=%ld clean=%d\n", plen, clean);
 }
 
+static void fill_pat(struct sockaddr_storage *ss, unsigned pad) {
+	uint8_t *b = (uint8_t *)ss;
+	for (size_t i = 0; i < sizeof(*ss); i++) b[i] = pad ? (uint8_t)((pad + 31 * i) | 1) : 0;
+}
+
+/* whole-image sockaddr: pattern everywhere, then the fields */
+static struct sockaddr_storage *mk_img(const char *fam, const uint8_t *a, size_t an, unsigned port,
+    const uint8_t *flow, const uint8_t *scope, unsigned pad) {
+	struct sockaddr_storage *ss = (struct sockaddr_storage *)vh_buf(sizeof(*ss));
+	fill_pat(ss, pad);
+	if (fam[0] == '4') {
+		struct sockaddr_in *s = (struct sockaddr_in *)ss;
+		s->sin_family = AF_INET; s->sin_port = htons((uint16_t)port);
+		memcpy(&s->sin_addr, a, an < 4 ? an : 4);
+	} else {
+		struct sockaddr_in6 *s = (struct sockaddr_in6 *)ss;
+		s->sin6_family = AF_INET6; s->sin6_port = htons((uint16_t)port);
+		memcpy(&s->sin6_flowinfo, flow, 4);
+		memcpy(&s->sin6_addr, a, an < 16 ? an : 16);
+		memcpy(&s->sin6_scope_id, scope, 4);
+	}
+	return ss;
+}
+
+#define LAYF(name, type, field) printf(" " name "=%zu,%zu", offsetof(type, field), sizeof(((type *)0)->field))
+
 int main(void) {
 	static char line[1 << 14], tag[1 << 14];
 	vh_install_fault_handler();
 	while (fgets(line, sizeof(line), stdin)) {
 		strcpy(tag, line);
 		int nf = split(line);
-		if (nf < 2) continue;
+		if (nf < 1) continue;
 		vh_set_tag(tag);
 		const char *op = fld[0];
 		alarm(20);
+		if (!strcmp(op, "lay") && nf == 1) {
+			sa_family_t f4 = AF_INET, f6 = AF_INET6;
+			printf("lay ss=%zu af4=", sizeof(struct sockaddr_storage));
+			vh_puthex((const uint8_t *)&f4, sizeof(f4));
+			LAYF("fam4", struct sockaddr_in, sin_family); LAYF("port4", struct sockaddr_in, sin_port);
+			LAYF("addr4", struct sockaddr_in, sin_addr);
+			printf(" size4=%zu af6=", sizeof(struct sockaddr_in));
+			vh_puthex((const uint8_t *)&f6, sizeof(f6));
+			LAYF("fam6", struct sockaddr_in6, sin6_family); LAYF("port6", struct sockaddr_in6, sin6_port);
+			LAYF("flow6", struct sockaddr_in6, sin6_flowinfo); LAYF("addr6", struct sockaddr_in6, sin6_addr);
+			LAYF("scope6", struct sockaddr_in6, sin6_scope_id);
+			printf(" size6=%zu\n", sizeof(struct sockaddr_in6));
+			alarm(0);
+			continue;
+		}
+		if (nf < 2) { alarm(0); continue; }
+		if (!strcmp(op, "ss") && nf >= 8) {
+			const char *sub = fld[1], *fam = fld[2];
+			size_t an, fn_, sn, xn = 0;
+			uint8_t *a = vh_unhex(fld[3], &an), *fl = vh_unhex(fld[5], &fn_), *sc = vh_unhex(fld[6], &sn);
+			unsigned port = (unsigned)strtoul(fld[4], NULL, 10), pad = (unsigned)strtoul(fld[7], NULL, 10);
+			uint8_t *x = NULL;
+			int rc = 0;
+			if (fn_ != 4 || sn != 4 || (nf < 9 && strcmp(sub, "si"))) { printf("ss badcase\n"); alarm(0); continue; }
+			struct sockaddr_storage *ss = mk_img(fam, a, an, port, fl, sc, pad);
+			struct sockaddr_storage *pre = (struct sockaddr_storage *)vh_buf(sizeof(*pre));
+			struct sockaddr_storage *src = NULL;
+			memcpy(pre, ss, sizeof(*pre));
+			if (!strcmp(sub, "tl")) {
+				net_addr_truncate_preflen(ss, (uint16_t)strtoul(fld[8], NULL, 10));
+			} else if (!strcmp(sub, "ps")) {
+				rc = sa_port_set(ss, (uint16_t)strtoul(fld[8], NULL, 10));
+			} else if (!strcmp(sub, "as")) {
+				x = vh_unhex(fld[8], &xn);      /* exact-size block: an over-read of the argument is seen by ASan */
+				rc = sa_addr_set(ss, x);
+			} else if (!strcmp(sub, "si")) {
+				fill_pat(ss, pad); memcpy(pre, ss, sizeof(*pre));
+				rc = sa_init(ss, fam[0] == '4' ? AF_INET : AF_INET6, a, (uint16_t)port);
+			} else if (!strcmp(sub, "cp")) {
+				src = ss;
+				ss = (struct sockaddr_storage *)vh_buf(sizeof(*ss));
+				fill_pat(ss, (unsigned)strtoul(fld[8], NULL, 10)); memcpy(pre, ss, sizeof(*pre));
+				sa_copy(src, ss);
+			} else { printf("ss badcase\n"); alarm(0); continue; }
+			printf("ss rc=%d pre=", rc); vh_puthex((const uint8_t *)pre, sizeof(*pre));
+			printf(" post="); vh_puthex((const uint8_t *)ss, sizeof(*ss));
+			printf(" src=");
+			if (src) vh_puthex((const uint8_t *)src, sizeof(*src)); else printf("-");
+			printf("\n");
+			vh_buf_free((uint8_t *)ss); vh_buf_free((uint8_t *)pre);
+			if (src) vh_buf_free((uint8_t *)src);
+			if (x) vh_buf_free(x);
+			vh_buf_free(a); vh_buf_free(fl); vh_buf_free(sc);
+			alarm(0);
+			continue;
+		}
 		if ((!strcmp(op, "fa") || !strcmp(op, "fp")) && nf == 5) {
 			size_t an, cap = (size_t)strtoul(fld[4], NULL, 10), rep = (size_t)-1;
 			uint8_t *a = vh_unhex(fld[2], &an);
